@@ -121,6 +121,30 @@ fn try_from_accepts_exactly_1980_2107() {
     kani::cover!(r.is_ok(), "accepted reachable");
 }
 
+// @harness try_from_takes_the_fields_as_given_for_any_offset complete props=C18 doc="TryFrom<OffsetDateTime> for a value carrying ANY UTC offset (-23:59..=+23:59) never panics, decides on the calendar year it is handed (Ok iff 1980..=2107) and stores exactly the calendar fields it is handed - no time-zone arithmetic (years 1900..=2200)"
+#[kani::proof]
+fn try_from_takes_the_fields_as_given_for_any_offset() {
+    let y: i32 = kani::any();
+    let mo: u8 = kani::any();
+    let d: u8 = kani::any();
+    let (h, mi, s): (u8, u8, u8) = (kani::any(), kani::any(), kani::any());
+    let (oh, om): (i8, i8) = (kani::any(), kani::any());
+    kani::assume(y >= 1900 && y <= 2200);
+    kani::assume(oh >= -23 && oh <= 23 && om >= -59 && om <= 59 && ((oh >= 0 && om >= 0) || (oh <= 0 && om <= 0)));
+    let m = match Month::try_from(mo) { Ok(m) => m, Err(_) => return };
+    let date = match Date::from_calendar_date(y, m, d) { Ok(x) => x, Err(_) => return };
+    let time = match Time::from_hms(h, mi, s) { Ok(x) => x, Err(_) => return };
+    let off = match time::UtcOffset::from_hms(oh, om, 0) { Ok(o) => o, Err(_) => return };
+    let odt = PrimitiveDateTime::new(date, time).assume_offset(off);
+    let r = DateTime::try_from(odt);
+    assert!(r.is_ok() == (y >= 1980 && y <= 2107));
+    if let Ok(x) = r {
+        assert!(x.year as i32 == y && x.month == mo && x.day == d && x.hour == h && x.minute == mi && x.second == s);
+    }
+    kani::cover!(oh == 1 && y == 1980 && mo == 1 && d == 1 && h == 0, "just after the lower bound, east of Greenwich");
+    kani::cover!(oh == -1 && y == 2107 && mo == 12 && d == 31 && h == 23, "just before the upper bound, west of Greenwich");
+}
+
 // ---- function contracts on the real functions (attributes injected by the
 // check from kani/contracts.json); each proved for all inputs.
 // @harness contract_from_msdos complete contract props=C18 doc="proof_for_contract(DateTime::from_msdos)"
